@@ -298,7 +298,7 @@ class Node:
         with_clones: Optional[bool] = None,
     ) -> None:
         """Change node's `data` and/or `data_id` and update bookkeeping."""
-        if not data and not data_id:
+        if data is None and data_id is None:
             raise ValueError("Missing data or data_id")
 
         tree = self._tree
@@ -324,7 +324,7 @@ class Node:
                 "set_data() for clones requires `with_clones` decision"
             )
 
-        if new_data_id:
+        if new_data_id is not None:
             # data_id (and possibly data) changes: we have to update the map
             if has_clones:
                 if with_clones:
@@ -337,7 +337,7 @@ class Node:
                         node_map[new_data_id] = prev_clones
                     for n in prev_clones:
                         n._data_id = new_data_id
-                        if new_data:
+                        if new_data is not None:
                             n._data = new_data
                 else:
                     # Move this one node to another slot in the map
@@ -348,7 +348,7 @@ class Node:
                     except KeyError:  # now a singleton with a new data_id
                         node_map[new_data_id] = [self]
                     self._data_id = new_data_id
-                    if new_data:
+                    if new_data is not None:
                         self._data = new_data
             else:
                 # data_id (and possibly data) changed for a *single* node
@@ -358,9 +358,9 @@ class Node:
                 except KeyError:  # still a singleton, just a new data_id
                     node_map[new_data_id] = [self]
                 self._data_id = new_data_id
-                if new_data:
+                if new_data is not None:
                     self._data = new_data
-        elif new_data:
+        elif new_data is not None:
             # `data` changed, but `data_id` remains the same:
             # simply replace the reference
             if with_clones:
@@ -629,7 +629,7 @@ class Node:
             else:
                 pass
                 # raise NotImplementedError("Cross-tree adding")
-            if data_id and data_id != source_node._data_id:
+            if data_id is not None and data_id != source_node._data_id:
                 raise UniqueConstraintError(f"data_id conflict: {source_node}")
 
             # If creating an inherited node, use the parent class as constructor
